@@ -14,6 +14,16 @@ struct CfgGray8
     static int ktap(int p) { return p; }
     static double sentinel() { return -123456789.0; }
 };
+struct CfgGray32s      // same source and destination pixel type: also run in place (destination view == source view)
+{
+    using src_px = gil::gray32s_pixel_t; using acc_px = gil::gray32s_pixel_t; using dst_px = gil::gray32s_pixel_t;
+    using ktype = int;
+    static const bool is_float = false, float_acc = false, planar_src = false;
+    static const char* name() { return "gray32s>gray32s"; }
+    static int32_t store(int v) { return int32_t(v); }
+    static int ktap(int p) { return p; }
+    static double sentinel() { return -123456789.0; }
+};
 struct CfgRgb8
 {
     using src_px = gil::rgb8_pixel_t; using acc_px = gil::rgb32s_pixel_t; using dst_px = gil::rgb32s_pixel_t;
@@ -37,6 +47,7 @@ struct CfgRgb8Planar
 
 // the property text does not constrain integer-overflow/shift UB here; only memory accesses count
 VH_GROUP(gray8) { vh::ubsan_counts() = false; c15::Runner<CfgGray8>{ctx}.run(); }
+VH_GROUP(gray32s_inplace) { vh::ubsan_counts() = false; c15::Runner<CfgGray32s>{ctx}.run(); }
 VH_GROUP(rgb8) { vh::ubsan_counts() = false; c15::Runner<CfgRgb8>{ctx}.run(); }
 VH_GROUP(rgb8planar) { vh::ubsan_counts() = false; c15::Runner<CfgRgb8Planar>{ctx}.run(); }
 
